@@ -298,6 +298,69 @@ def c10_corpus(tier, seed):
 
 
 
+
+# ---------------------------------------------------------------------------
+# C09: what is written on an entraited trait is still in force afterwards (rustc-decided, compile only)
+# ---------------------------------------------------------------------------
+
+def c09_corpus(tier, seed):
+    """Each program only compiles if a particular part of the user's trait survived the macro: a where clause on the trait, a
+    where clause on a (sync / async) generic method, supertraits, generic parameters, `?Send` next to a mock option.
+    (Parts the unchanged tree is known to drop - trait-level attributes, `unsafe`, default bodies, associated types - are
+    recorded findings judged by Engine S and are not used here.)"""
+    progs = []
+    k = 0
+
+    def add(desc, body):
+        nonlocal k
+        k += 1
+        progs.append(Program(f'c09_{k:03d}', desc, PRELUDE + body, [], ['C09']))
+    add('where clause on a non-generic trait is kept (users rely on `Self: Send`)', '''
+#[::entrait::entrait]
+pub trait Job where Self: Send { fn run(&self, q1: u32) -> u32; }
+pub fn req_send<T: Send>(_: T) {}
+pub fn spawnable<J: Job + 'static>(j: J) { req_send(j) }
+''')
+    add('generic trait with a supertrait; sync and async generic methods with their own where clauses; method attribute', '''
+#[::entrait::entrait]
+pub trait Render<X: Copy + Into<u64> + Send + Sync>: Sync {
+    fn show<V>(&self, v: V, x: X) -> u64 where V: Into<u64> + Send;
+    async fn later<V>(&self, v: V, x: X) -> u64 where V: Into<u64> + Send;
+    #[must_use]
+    fn tagged(&self) -> u32;
+}
+pub struct P;
+impl Render<u8> for P {
+    fn show<V>(&self, v: V, x: u8) -> u64 where V: Into<u64> + Send { v.into() + x as u64 }
+    async fn later<V>(&self, v: V, x: u8) -> u64 where V: Into<u64> + Send { rt::YieldOnce(false).await; v.into() ^ x as u64 }
+    fn tagged(&self) -> u32 { 1 }
+}
+pub fn use_it(app: &Impl<P>) -> u64 { app.show(1u32, 2u8) + rt::block_on(app.later(3u16, 4u8)) + app.tagged() as u64 }
+pub fn needs_sync<T: Render<u8>>(t: &T) { fn s<U: Sync + ?Sized>(_: &U) {} s(t) }
+''')
+    add('?Send next to a mock option: the future of an implementation may hold an Rc across an await', '''
+use std::rc::Rc;
+#[::entrait::entrait(?Send, mockall)]
+pub trait Session { async fn user_name(&self, q1: u32) -> Rc<str>; }
+pub struct S0;
+impl Session for S0 {
+    async fn user_name(&self, q1: u32) -> Rc<str> { let r: Rc<str> = Rc::from("x"); rt::YieldOnce(false).await; let _ = q1; r }
+}
+pub fn use_it(app: &Impl<S0>) -> usize { rt::block_on(app.user_name(1)).len() }
+''')
+    add('delegate_by = ref: generics, where clause and borrowed return survive on the trait behind the dyn', '''
+#[::entrait::entrait(delegate_by = ref)]
+pub trait Store<K: Copy + Send + Sync + 'static>: 'static where K: Into<u64> {
+    fn get<'a>(&'a self, k: K, fallback: &'a u64) -> &'a u64;
+}
+pub struct Mem { pub v: u64 }
+impl Store<u8> for Mem { fn get<'a>(&'a self, k: u8, fallback: &'a u64) -> &'a u64 { if k == 0 { &self.v } else { fallback } } }
+pub struct AppS { pub mem: Mem }
+impl AsRef<dyn Store<u8>> for AppS { fn as_ref(&self) -> &(dyn Store<u8> + 'static) { &self.mem } }
+pub fn use_it(app: &Impl<AppS>, f: &u64) -> u64 { *app.get(0u8, f) }
+''')
+    return progs
+
 # ---------------------------------------------------------------------------
 # C11: the unimock wiring compiles (rustc-decided; Kani cannot build the unimock runtime)
 # ---------------------------------------------------------------------------
